@@ -724,6 +724,8 @@ def _check_fresh(ctx, fi, mutators):
 
 
 def _is_fresh(d, prog=None, fi=None, depth=0):
+    if isinstance(d, ast.IfExp):
+        return _is_fresh(d.body, prog, fi, depth) and _is_fresh(d.orelse, prog, fi, depth)  # fresh whichever way the test goes
     if isinstance(d, ast.Call):
         f = d.func
         if isinstance(f, ast.Attribute) and f.attr == "copy" and not d.args:
